@@ -91,15 +91,33 @@ func (sr *sqlRoots) tokenizeSummary(e *absint.Engine, st *absint.State, fr *absi
 	}
 	sr.scannerPre(e, st, fr, call, S, false, "scanner interface at call of "+callee.Name())
 	ln, _ := e.CellOf(st, S, sr.field("sql.state.length"))
+	ps, _ := e.CellOf(st, S, sr.field("sql.state.pos"))
 	sr.havocScan(e, st, S)
-	pos := e.NewInt(st, "pos'")
-	e.AssumeLE(st, absint.K(0), pos)
-	if l, ok := ln.(absint.IntV); ok {
-		e.AssumeLE(st, pos, l.L)
+	// post (proved at the returns of tokenize's own root): pos@entry ≤ pos' ≤ length,
+	// and a `true` result means at least one byte was consumed
+	mk := func(s2 *absint.State, result bool) *absint.State {
+		pos := e.NewInt(s2, "pos'")
+		if p, ok := ps.(absint.IntV); ok {
+			if result {
+				e.AssumeLE(s2, p.L.AddK(1), pos)
+			} else {
+				e.AssumeLE(s2, p.L, pos)
+			}
+		}
+		e.AssumeLE(s2, absint.K(0), pos)
+		if l, ok := ln.(absint.IntV); ok {
+			e.AssumeLE(s2, pos, l.L)
+		}
+		e.SetCell(s2, S, sr.field("sql.state.pos"), absint.IntV{L: pos})
+		known := 2
+		if result {
+			known = 1
+		}
+		e.SetResult(s2, fr, call, absint.BoolV{Known: known})
+		return s2
 	}
-	e.SetCell(st, S, sr.field("sql.state.pos"), absint.IntV{L: pos})
-	e.SetResult(st, fr, call, absint.BoolV{})
-	return []*absint.State{st}, true
+	s2 := st.Clone()
+	return []*absint.State{mk(st, true), mk(s2, false)}, true
 }
 
 // dispatchSummary: used while analysing tokenize.
@@ -265,11 +283,30 @@ func (sr *sqlRoots) runAll(extra func(name string, hooks *absint.Hooks)) {
 	launch(func() {
 		cfg := sr.config(absint.Hooks{})
 		cfg.Summaries[dispatchFn] = sr.dispatchSummary
+		var S absint.PtrV
+		var pos0, length absint.Lin
+		cfg.Hooks.OnReturn = func(e *absint.Engine, st *absint.State, fr *absint.Frame, ret *ssa.Return, val absint.AVal) {
+			if fr.Fn() != tokenize || fr.Depth() != 0 {
+				return
+			}
+			where := core.Short(ret.String())
+			ps, ok := e.CellOf(st, S, sr.field("sql.state.pos"))
+			pi, okI := ps.(absint.IntV)
+			b, _ := val.(absint.BoolV)
+			e.Check(st, fr, ret.Pos(), "I-post", "pos@entry ≤ pos ≤ length at "+where, ok && okI && e.ProveLE(st, pos0, pi.L) && e.ProveLE(st, pi.L, length), "tokenize may move the cursor backwards or past the end")
+			if b.Known != 2 {
+				e.Check(st, fr, ret.Pos(), "I-post", "a token was produced ⇒ ≥ 1 byte consumed at "+where, ok && okI && e.ProveLE(st, pos0.AddK(1), pi.L), "tokenize can report a token without consuming input: the folding loops would not terminate")
+			}
+		}
 		if extra != nil {
 			extra("tokenize", &cfg.Hooks)
 		}
 		sr.run("tokenize", cfg, tokenize, func(e *absint.Engine, st *absint.State, fr *absint.Frame) {
-			env.sqlStateSetup(e, st, fr, tokenize.Params[0])
+			var in absint.StrV
+			S, in = env.sqlStateSetup(e, st, fr, tokenize.Params[0])
+			ps, _ := e.CellOf(st, S, sr.field("sql.state.pos"))
+			pos0 = ps.(absint.IntV).L
+			length = absint.StrLenOf(in)
 		})
 	})
 	// ---- the folding loop with tokenize and the small helpers summarised
